@@ -64,8 +64,13 @@ def secret_mpis(key):
     return b''.join(wire.mpi_encode(v) for v in secret_ints(key))
 
 
+def alg_octet(key):
+    """The public-key algorithm octet of the key packet: RSA keys may carry the deprecated ids 2 / 3 ('algid')."""
+    return key.get('algid', ALG_ID[key['alg']])
+
+
 def public_body(key):
-    return b'\x04' + wire.time_encode(key['created']) + bytes([ALG_ID[key['alg']]]) + public_material(key)
+    return b'\x04' + wire.time_encode(key['created']) + bytes([alg_octet(key)]) + public_material(key)
 
 
 def fingerprint(key):
